@@ -155,7 +155,7 @@ theorem step_map {kk : Kind} {e : Elem} {n : Nat} {k v : Val} {r1 : Bytes}
 theorem step_unknown {wt : Nat} {r' : Bytes}
     (ht : consumeTag bs = .ok (num, wt, r)) (hn : num ≤ 536870911)
     (hfind : findField (S.msg i).fields num = none)
-    (hv : consumeValue (2 * r.length + 2) 10000 num wt r = .ok r') :
+    (hv : consumeValue (2 * r.length + 2) 10001 num wt r = .ok r') :
     specDecodeLoop true S i {} cd (fuel + 1) m bs =
       specDecodeLoop true S i {} cd fuel
         (Val.msg m.slots (m.unknown ++ bs.take (bs.length - r'.length))) r' := by
